@@ -117,10 +117,12 @@ class Result:
 
 
 def run_shards(res, prop, hname, exe, mode, tier, shards, cases, max_size=100, extra_env=None, extra_args=None,
-               timeout=3600, label=None):
+               timeout=None, label=None):
     """Run `shards` rapidcheck processes of one harness in parallel and merge their stats."""
     tmpd = tempfile.mkdtemp(prefix="verif_%s_" % prop, dir=vbuild.BUILD)
     os.makedirs(os.path.join(REPLAY, "tmp"), exist_ok=True)
+    if timeout is None:
+        timeout = 3600 if tier == "quick" else 3 * 3600
     opens = ",".join(f["id"] for f in open_findings())
 
     def one(i):
@@ -160,6 +162,8 @@ def run_shards(res, prop, hname, exe, mode, tier, shards, cases, max_size=100, e
                 res.failures.append((hname, exe, mode, dst, "process died while running this case (sanitizer report)"))
                 shutil.copy(log, dst + ".shardlog")
         if rc == -999:
+            # time budget hit: inconclusive for what was not reached, never a verdict (the shard's partial statistics,
+            # written every 30 s, were merged above)
             res.extra.setdefault("inconclusive_timeouts", 0)
             res.extra["inconclusive_timeouts"] += 1
             continue
@@ -293,6 +297,8 @@ def finish(prop, tier, res, t0, level="exploration", assumptions=None):
     if confirmed:
         return 1
     res.harness_errors = list(res.harness_errors) + PROBE_ERRORS
+    if res.evaluations == 0 and not confirmed:
+        res.harness_errors.append("no case was evaluated (every shard hit its time limit?): inconclusive, not a pass")
     if res.harness_errors:
         sys.stderr.write("HARNESS ERROR (not a verdict about the property):\n" + "\n".join(res.harness_errors) + "\n")
         return 2
@@ -353,7 +359,8 @@ def check_c09(tier):
 
 
 def check_c10(tier):
-    return check_geom("C10", "c10", tier, 2000, 20000,
+    # (thorough decodes every stream under all 32 skip subsets: 8x the work per case)
+    return check_geom("C10", "c10", tier, 2000, 6000,
                       ["skip_quantized", "skip_octahedral", "skip_kdtree_quantized", "method_mesh_edgebreaker",
                        "method_mesh_sequential", "method_pc_sequential", "method_pc_kdtree", "att_explicit_quantization_used"])
 
